@@ -4,11 +4,35 @@ from __future__ import annotations
 from pgv import sx
 
 
-def collect(eng, run, base, cfg=''):
-    """Explore all paths of `run`, return obligation dicts (path id appended); unsupported paths are recorded."""
+def collect(eng, run, base, cfg='', replay=None):
+    """Explore all paths of `run`, return obligation dicts (path id appended); unsupported paths are recorded.
+    An exception that escapes `run` (the harness catches the ones the contract allows) ends the exploration and is recorded:
+    raised by the code under verification (or numpy / pandas below it) -> a refuted obligation `sx.no_unexpected_exception`;
+    raised inside this tooling (a stub that does not cover what the code now asks of it) -> undecided."""
     obs = []
     n = 0
     tag = f"/{cfg}" if cfg else ''
+    try:
+        return _collect(eng, run, base, cfg, obs, tag)
+    except (KeyboardInterrupt, SystemExit, MemoryError):
+        raise
+    except Exception as exc:
+        import os
+        import traceback
+        frames = traceback.extract_tb(exc.__traceback__)
+        here = os.path.dirname(os.path.abspath(__file__))
+        inner = frames[-1] if frames else None
+        in_tool = inner is not None and os.path.abspath(inner.filename).startswith(here) and not inner.filename.endswith(':lifted') \
+            and not getattr(exc, '_pgv_contract', False)
+        where = f"{inner.filename.split('/')[-1]}:{inner.lineno} in {inner.name}" if inner else '?'
+        obs.append({'name': f"{base}/sx.no_unexpected_exception{tag}", 'verdict': 'unsupported' if in_tool else 'refuted', 'backend': 'sx', 'time': 0.0,
+                    'model': None, 'detail': f"{type(exc).__name__}: {str(exc)[:160]} @ {where}", 'pc': eng.pc_text() if hasattr(eng, 'pc_text') else '',
+                    'extra': {'replay': replay, 'observed': f"{type(exc).__name__}: {str(exc)[:160]}"}})
+        return obs
+
+
+def _collect(eng, run, base, cfg, obs, tag):
+    n = 0
     try:
         for path in eng.explore(run):
             n += 1
